@@ -123,7 +123,9 @@ def classify(bad, texts, wd):
             body = texts[i]
             import re
             # a '$' / '$$' that stands alone as an identifier, also directly after a control operator name ('.eq$ x' read as '.eq $ x')
-            if re.search(r"(?<![\w@.$-])\${1,2}(?![A-Za-z_@$])", body) or re.search(r"\.[A-Za-z][A-Za-z0-9-]*\${1,2}(?![A-Za-z_@$])", body):
+            # also a number directly followed by '$' + non-letter: "2$3" is the two entries "2" and "$3"
+            if re.search(r"(?<![\w@.$-])\${1,2}(?![A-Za-z_@$])", body) or re.search(r"\.[A-Za-z][A-Za-z0-9-]*\${1,2}(?![A-Za-z_@$])", body) \
+                    or re.search(r"(?<![A-Za-z_@.$-])[0-9][0-9A-Fa-fxXbB.]*\${1,2}(?![A-Za-z_@$])", body):
                 known[i] = "C03-bare-dollar-identifier"
     for i, v in bad:
         if i not in known and v == "bad:rejected-derivable":
